@@ -269,6 +269,74 @@ async fn flood(seed: u64, rep: Arc<Mutex<Report>>) {
     .await;
 }
 
+/// A raw peer that ignores the protocol's pacing: after a correct handshake it sends one OPEN and then thousands of CLOSE frames on a
+/// stream the local application never accepts. What the multiplexer pulls from the transport must stay within read_frame_count.
+async fn control_flood(seed: u64, rep: Arc<Mutex<Report>>) {
+    let clock = ctx::RealClock;
+    let root = ctx::test_root(&clock);
+    let ctx = &root.with_timeout(time::Duration::seconds(20));
+    let (frame, bufsz, count) = (256u64, 1024u64, [4u64, 8, 16][(seed % 3) as usize]);
+    // the peer's handshake: what a real Mux with the mirrored capabilities sends first
+    let hs: Vec<u8> = {
+        let (ea, _eb, ab, _ba) = pipe::pair();
+        ab.lock().unwrap().auto = false;
+        let q = StreamQueue::new(ctx, 2, limiter::Rate::INF);
+        let m = Mux { cfg: mux_cfg(frame, bufsz, count), accept: BTreeMap::new(), connect: [(0, q)].into_iter().collect() };
+        let _ = m.run(&root.with_timeout(time::Duration::milliseconds(200)), ea).await;
+        let v = ab.lock().unwrap().staging.clone();
+        v
+    };
+    let qa = StreamQueue::new(ctx, 2, limiter::Rate::INF);
+    let mux_a = Mux { cfg: mux_cfg(frame, bufsz, count), connect: BTreeMap::new(), accept: [(0, qa.clone())].into_iter().collect() };
+    let (ea, eb, _ab, ba) = pipe::pair();
+    let _keep = eb;
+    let _: Result<(), ctx::Error> = scope::run!(ctx, |ctx, s| async {
+        s.spawn_bg(async {
+            let _ = mux_a.run(ctx, ea).await;
+            Ok(())
+        });
+        pipe::release(&ba, &hs);
+        let hdr = |kind: u16, id: u16| (kind | 0b0010_0000_0000_0000 | id).to_le_bytes();
+        let n_frames = 3000usize;
+        let mut bytes = vec![];
+        bytes.extend(hdr(0, 0)); // OPEN, sent by the CONNECT side, stream 0
+        for _ in 0..n_frames {
+            bytes.extend(hdr(0b1000_0000_0000_0000, 0)); // CLOSE
+        }
+        pipe::release(&ba, &bytes);
+        // wait until the multiplexer stops pulling
+        let mut last = 0;
+        let mut calm = 0;
+        for _ in 0..2000 {
+            let _ = ctx.sleep(time::Duration::milliseconds(2)).await;
+            let p = ba.lock().unwrap().pulled;
+            if p == last {
+                calm += 1;
+                if calm > 60 {
+                    break;
+                }
+            } else {
+                calm = 0;
+                last = p;
+            }
+        }
+        let pulled = ba.lock().unwrap().pulled;
+        let frames = pulled.saturating_sub(hs.len() as u64) / 2;
+        let mut r = rep.lock().unwrap();
+        r.add("control_flood_frames_pulled", frames);
+        r.add("control_flood_frame_limit", count);
+        // every buffered frame holds a count permit; one more header may have been read and be waiting for its permit
+        if frames > count + 2 {
+            r.fail("mux_frame_count_bound", format!("{frames} unconsumed OPEN/CLOSE frames pulled from a peer that floods a stream nobody accepts; read_frame_count = {count}"), json!({"seed": seed, "scenario": "control_flood"}));
+        }
+        if frames < 2 {
+            r.notes.push("control flood: the multiplexer pulled nothing (handshake mismatch in the harness?)".into());
+        }
+        Ok(())
+    })
+    .await;
+}
+
 fn main() {
     quiet_panics();
     let a = args();
@@ -280,6 +348,7 @@ fn main() {
         rt.block_on(async {
             cooperative(seed, log.clone(), rep.clone()).await;
             flood(seed, rep.clone()).await;
+            control_flood(seed, rep.clone()).await;
         })
     });
     let mut rep = std::mem::take(&mut *rep.lock().unwrap());
